@@ -13,7 +13,7 @@ EXPLAIN["C15"] = (
     "matches the method name (R2), varint slices start at ptr+offset, end at or below allocated() and are at least "
     "min(allocated-offset, ceil(bits/7)) long (R4), and allocated_memory/data/memory have the documented base and length (R5). "
     "Symbolic offset and allocated(), so every offset including usize extremes is covered. Not decided: the LEB128 decoder.")
-ASSUME["C15"] = ["dbutils::leb128::decode_* reads only inside the slice it is given",
+ASSUME["C15"] = ["dbutils::leb128::decode_* reads only inside the slice it is given, and answers an empty slice with Underflow",
                  "allocated() <= capacity() and the mapping is at least capacity() bytes long (C01/C16)"]
 
 SELF = ("param", 0, "self")
@@ -125,7 +125,17 @@ def r4(ctx):
         yield Ob(key_of("C15-R4", b.path, "base"), ok_p, "decoder slice starts at raw_ptr + offset (got %s)" % short(p, 100), ctx.loc(e))
         order, fs = order_for(ctx, ev, e)
         ok_g = order.le(add(OFF, const(1)), ALLOC)
-        yield Ob(key_of("C15-R4", b.path, "guard"), ok_g, "dominated by offset < allocated()", ctx.loc(e))
+        # a window measured as min(allocated.saturating_sub(offset), K) is allocated - offset wherever offset <= allocated
+        if tag(n) == "min" and order.le(OFF, ALLOC):
+            parts_ = [sub(ALLOC, OFF) if (tag(x) == "satsub" and term_eq(x[1], ALLOC) and term_eq(x[2], OFF)) else x for x in (n[1], n[2])]
+            n = ("min", *sorted(parts_, key=repr))
+        elif tag(n) == "satsub" and term_eq(n[1], ALLOC) and term_eq(n[2], OFF) and order.le(OFF, ALLOC):
+            n = sub(ALLOC, OFF)
+        if not ok_g and order.le(OFF, ALLOC) and tag(n) == "min" and any(term_eq(x, sub(ALLOC, OFF)) for x in (n[1], n[2])):
+            # offset == allocated() is let through with an empty window: nothing is read, and the decoder's answer to an empty window (Underflow) is
+            # OutOfBounds by R6 - the same refusal as the explicit guard's
+            ok_g = True
+        yield Ob(key_of("C15-R4", b.path, "guard"), ok_g, "dominated by offset < allocated() (or offset <= allocated() with a window that is empty at equality)", ctx.loc(e))
         # upper bound: offset + n <= allocated ; lower bound: n >= min(allocated - offset, K)
         ok_u = order.le(add(OFF, n), ALLOC)
         yield Ob(key_of("C15-R4", b.path, "end"), ok_u, "slice end offset + %s <= allocated(): %s" % (short(n, 60), "proved" if ok_u else "NOT proved"), ctx.loc(e))
